@@ -26,7 +26,7 @@ META = {
             "incomplete dataset or >=1 starter, n>=4, and the id order of the input dataset differs from the id order "
             "of a dataset built from the departure rankings.",
     "assumptions": ["dyadic schemes compared exactly, decimal ones with 1e-6"],
-    "budget_s": {"quick": 110, "thorough": 800},
+    "budget_s": {"quick": 160, "thorough": 900},
     "floors": {"not_worse/incomplete": 0.4},
 }
 
@@ -55,7 +55,7 @@ SHAPES = ["incomplete", "incomplete", "sparse_block", "near_unanimous_incomplete
 def schemes():
     # starters such as Borda / PickAPerm only accept the unifying (and induced) families on incomplete data
     return st.one_of(gen.any_schemes(), gen.preset_multiples(["unifying", "unifying_half", "induced", "induced_half"]),
-                     gen.preset_multiples(["unifying"]))
+                     gen.preset_multiples(["unifying"]), gen.p_family_schemes(), gen.p_family_schemes())
 
 
 @st.composite
@@ -165,6 +165,31 @@ def check_corollary(case, ctx):
 
 
 @st.composite
+def cheap_tie_cases(draw, tier):
+    """no starting algorithm, ties much cheaper than inversions, incomplete data with rankings made of ONE bucket
+    that do not cover the universe: the regime in which the all-tied departure ranking is the one that matters"""
+    p = draw(st.sampled_from([0.0625, 0.125, 0.25, 0.25, 0.375]))
+    fam = draw(st.sampled_from(["unifying", "unifying", "pseudodistance", "free"]))
+    if fam == "unifying":
+        scheme = [[0., 1., p, 0., 1., p], [p, p, 0., p, p, 0.]]
+    elif fam == "pseudodistance":
+        scheme = [[0., 1., p, 0., 1., 0.], [p, p, 0., p, p, 0.]]
+    else:
+        scheme = draw(gen.free_schemes())
+        scheme[1][0] = scheme[1][1] = p * scheme[0][1]
+    ds = draw(gen.datasets(max_n=7, min_n=3, max_m=4, shapes=["incomplete", "sparse_block", "cyclic_incomplete",
+                                                              "near_unanimous_incomplete"],
+                           kinds=("dense", "str"), allow_empty_rankings=False))
+    univ = oracle.universe(ds["rankings"])
+    for _ in range(draw(st.sampled_from([1, 1, 2]))):
+        mask = draw(st.lists(st.booleans(), min_size=len(univ), max_size=len(univ)))
+        bucket = [e for e, k in zip(univ, mask) if k] or univ[:1]
+        ds["rankings"].insert(draw(st.integers(0, len(ds["rankings"]))), [bucket])
+    return {"starters": "none", "scheme": scheme, "dataset": ds, "via_mutation": None, "prelude": None,
+            "at_most_one": draw(st.booleans()), "rng": 0}
+
+
+@st.composite
 def election_cases(draw, tier):
     """a few distinct ballots with multiplicities in the hundreds: scores in the thousands, where absolute and
     relative tolerances on scores part ways (distinct local optima whose scores differ by less than 0.1 %)"""
@@ -181,6 +206,7 @@ def election_cases(draw, tier):
 
 
 def subchecks():
-    return [HypSub("not_worse", cases, check, 14000, 150000),
+    return [HypSub("not_worse", cases, check, 10000, 150000),
+            HypSub("cheap_ties", cheap_tie_cases, check, 6000, 60000),
             HypSub("large_multiplicities", election_cases, check, 500, 6000),
             HypSub("corollaries", corollary_cases, check_corollary, 6000, 60000)]
